@@ -92,11 +92,10 @@ def dispatch_oracle(ix: Index, scn: dict) -> list[Violation]:
                 out.append(Violation("wrong-type-delivered", "", f"{sid} received {cname} for an incoming {name}"))
         for sid in d["snapshot"]:
             n = counts.get(sid, 0)
-            if sid in d["removed"]:
-                if n > 1:
-                    out.append(Violation("delivered-twice", "", f"{sid} received {name} {n}x"))
-            elif n != 1:
-                out.append(Violation("not-exactly-once", "missed" if n == 0 else "dup", f"{sid} was registered for {name} when it arrived (turn {d['turn']}) but received it {n}x"))
+            # a subscriber unsubscribed by another callback during this very delivery was registered
+            # when the message arrived: the current delivery must not be disturbed, it still gets it
+            if n != 1:
+                out.append(Violation("not-exactly-once", ("missed" if n == 0 else "dup") + (":unsubscribed-during-delivery" if sid in d["removed"] else ""), f"{sid} was registered for {name} when it arrived (turn {d['turn']}) but received it {n}x"))
         for sid, n in counts.items():
             if sid not in d["snapshot"]:
                 if sid in d["added"]:
